@@ -640,6 +640,8 @@ def bool_form(t):
     predicate helper) become and/or/not"""
     if t[0] == "call" and t[1] == ("global", "bool") and len(t[2]) == 1 and not t[3]:
         return bool_form(t[2][0])        # bool(x) has the truth value of x
+    if t[0] == "unary" and t[1] == "not":
+        return ("unary", "not", bool_form(t[2]))
     if t[0] != "ifexp":
         return t
     c, a, b = bool_form(t[1]), bool_form(t[2]), bool_form(t[3])
@@ -1487,6 +1489,29 @@ class Extractor(object):
                 return False
         return True
 
+    @classmethod
+    def _without_continue(cls, stmts):
+        """``if c: continue`` guard clauses at the top level of a loop body turned into ``if not c: <rest>``; None if the body jumps
+        in any other way"""
+        for i, st in enumerate(stmts):
+            if isinstance(st, ast.If) and not st.orelse and st.body and isinstance(st.body[-1], ast.Continue) \
+                    and not cls._jumps_of(st.body[:-1]):
+                rest = cls._without_continue(stmts[i + 1:])
+                if rest is None:
+                    return None
+                neg = ast.copy_location(ast.UnaryOp(op=ast.Not(), operand=st.test), st.test)
+                out = list(stmts[:i])
+                if st.body[:-1]:
+                    out.append(ast.copy_location(ast.If(test=st.test, body=st.body[:-1], orelse=rest or [ast.Pass()]), st))
+                elif rest:
+                    out.append(ast.copy_location(ast.If(test=neg, body=rest, orelse=[]), st))
+                for n in out:
+                    ast.fix_missing_locations(n)
+                return out
+            if cls._jumps_of([st]):
+                return None
+        return list(stmts)
+
     @staticmethod
     def _jumps_of(stmts):
         """break/continue statements belonging to the loop whose body is ``stmts``"""
@@ -1641,6 +1666,12 @@ class Extractor(object):
             if ft_b:
                 return True, env_b, pg + ((test, False),)
             return False, None, ()
+        if isinstance(s, ast.For) and not s.orelse and self._jumps_of(s.body) and not self._breaks_of(s.body):
+            # a loop whose only jumps are ``if c: continue`` guard clauses at the top level of its body: the same loop with the rest
+            # of the body under ``if not c`` (so that a loop over a literal table can still be written out)
+            flat = self._without_continue(s.body)
+            if flat is not None:
+                s = ast.copy_location(ast.For(target=s.target, iter=s.iter, body=flat, orelse=[], type_comment=None), s)
         if isinstance(s, (ast.For, ast.While)):
             if isinstance(s, ast.For) and not s.orelse and isinstance(s.iter, ast.Call) and self.inliner is not None and self.depth < 2 \
                     and not any(isinstance(a, ast.Starred) for a in s.iter.args) and not self._jumps_of(s.body) \
